@@ -71,7 +71,7 @@ def r14_2(ctx):
     name, k = ro_entry(ctx, 'get')
     q = ctx.explore(k, mode='layer', facts=ctx.spec_facts(k, checker='some'), tag='chk')
     R, hits = read_hits(q, rt)
-    nexts = q.edges(lambda ev: ev['k'] == 'ext' and ev['path'].endswith('::next'))
+    nexts = q.edges(lambda ev: ev['k'] == 'ext' and (ev['path'].endswith('::next') or ev['path'].endswith('::split_first')))
     exhausted = []
     for e in nexts:
         res = q.E[e][2]['res']
@@ -117,7 +117,7 @@ def r14_3(ctx):
         # "the read side was scanned": a read-side lookup, or the stack found empty / exhausted
         scanned = R + q.edges(lambda ev: ev['k'] == 'branch' and ev.get('eq') == 1 and VAL[ev['val']][0] == 'sym' and VAL[ev['val']][1] == 'app'
                               and VAL[ev['val']][2] in ('core::slice::is_empty', 'std::vec::Vec::is_empty'))
-        for e in q.edges(lambda ev: ev['k'] == 'ext' and ev['path'].endswith('::next')):
+        for e in q.edges(lambda ev: ev['k'] == 'ext' and (ev['path'].endswith('::next') or ev['path'].endswith('::split_first'))):
             res = q.E[e][2]['res']
             scanned += q.edges(lambda x: x['k'] == 'refine' and x['val'] == res and x['vname'] == 'None')
         oks = q.terminals(lambda ev: ev['k'] == 'ret' and ev.get('variant') == 'Ok')
